@@ -612,7 +612,7 @@ Qed.
 (* ---- overridden serialization: what the rewriting does ---- *)
 Lemma resolve_ty_noop t : resolve_ty [] [] t = t.
 Proof.
-  induction t using ty_ind'; try reflexivity; cbn [resolve_ty table_ov tykey apply_ov first_ser lookup]; try (rewrite IHt; reflexivity); try (rewrite IHt1, IHt2; reflexivity).
+  induction t using ty_ind'; try reflexivity; cbn [resolve_ty table_ov tykey okey apply_ov first_ser lookup]; try (rewrite IHt; reflexivity); try (rewrite IHt1, IHt2; reflexivity).
   all: f_equal; induction H as [|x r Hx Hr IH]; simpl; [reflexivity|rewrite Hx; f_equal; exact IH].
 Qed.
 
